@@ -26,6 +26,13 @@ class CaseFailed(Exception):
     pass
 
 
+class TooManyInconclusive(BaseException):
+    """the shard stops generating: the library does not answer on several tiny inputs"""
+
+
+MAX_INCONCLUSIVE = 3
+
+
 class ShardState:
     def __init__(self, mod, tier, shard):
         self.mod = mod
@@ -55,10 +62,12 @@ class ShardState:
         try:
             with watchdog(wd):
                 res = self.mod.run_case(case)
-        except Inconclusive:
+        except (Inconclusive, MemoryError):
             self.inconclusive += 1
             if len(self.inconclusive_samples) < 3:
                 self.inconclusive_samples.append(case)
+            if self.inconclusive >= getattr(self.mod, "MAX_INCONCLUSIVE", {}).get(self.tier, MAX_INCONCLUSIVE):
+                raise TooManyInconclusive()
             return []
         fails = []
         for f in res.get("failures", []):
@@ -208,24 +217,28 @@ def cmd_run(argv):
     flags = findings.open_flags(mod.ID)
     t0 = time.time()
     exhaustive_info = None
-    if hasattr(mod, "exhaustive"):
-        state.track_hashes = False
-        n = 0
-        for case in mod.exhaustive(tier, shard, nshards):
-            n += 1
-            fails = state.execute(case)
-            if fails:
-                state.record_found(case, fails, "exhaustive")
-        state.track_hashes = True
-        exhaustive_info = {"cases": n}
-    if hasattr(mod, "machines"):
-        state.seq_count = 0
-        run_machines(state, mod.machines(tier, flags), budget, seedval,
-                     mod.STEPS[tier])
-    else:
-        strat = mod.strategy(tier, flags)
-        run_hypothesis(state, strat, budget, seedval)
+    aborted = False
+    try:
+        if hasattr(mod, "exhaustive"):
+            state.track_hashes = False
+            exhaustive_info = {"cases": 0}
+            for case in mod.exhaustive(tier, shard, nshards):
+                exhaustive_info["cases"] += 1
+                fails = state.execute(case)
+                if fails:
+                    state.record_found(case, fails, "exhaustive")
+            state.track_hashes = True
+        if hasattr(mod, "machines"):
+            state.seq_count = 0
+            run_machines(state, mod.machines(tier, flags), budget, seedval,
+                         mod.STEPS[tier])
+        else:
+            strat = mod.strategy(tier, flags)
+            run_hypothesis(state, strat, budget, seedval)
+    except TooManyInconclusive:
+        aborted = True
     rep = state.report()
+    rep["aborted_after_inconclusive"] = aborted
     rep["exhaustive"] = exhaustive_info
     rep["wall_s"] = time.time() - t0
     with open(out, "w") as fh:
@@ -258,6 +271,12 @@ def cmd_replay(argv):
 
 def main():
     sys.setrecursionlimit(3000)
+    try:
+        import resource
+        lim = int(os.environ.get("VERIF_WORKER_MEM_MB", "4096")) * 1024 * 1024
+        resource.setrlimit(resource.RLIMIT_AS, (lim, lim))
+    except (ImportError, ValueError, OSError):
+        pass
     try:
         if sys.argv[1] == "run":
             return cmd_run(sys.argv[2:])
